@@ -293,6 +293,27 @@ output:
         generate_validate: true
 """
 
+GEN_PIPELINE_SLOTS = """debug: false
+inputs:
+  - jsonschema:
+      path: '%(verif)s/corpus/c13/slots.json'
+      package: slots
+transformations:
+  schemas:
+    - '%(verif)s/corpus/c13/slots_passes.yaml'
+output:
+  directory: '%(out)s'
+  types: true
+  builders: false
+  languages:
+    - go:
+        package_root: 'verifgen'
+        generate_json_marshaller: false
+        generate_strict_unmarshaller: false
+        generate_equal: true
+        generate_validate: true
+"""
+
 def _gen_prepare(tmp, tier):
     """Stage 1: build cog's CLI from /repo's current tree and let the REAL generator emit Go code for the corpus."""
     import subprocess
@@ -303,6 +324,18 @@ def _gen_prepare(tmp, tier):
     cfg = os.path.join(tmp, "pipeline.yaml")
     open(cfg, "w").write(GEN_PIPELINE % {"verif": drv.VERIF, "repo": drv.REPO, "out": out})
     drv.sh([cog, "generate", "--config", cfg], cwd=tmp)
+    # second pipeline: composable (dataquery) slots. They only arise through a user transformation
+    # (retype_field ... composable_slot), their JSON (un)marshalling needs templates cog does not ship
+    # (so it is switched off here) and their Go runtime interface is the repository's own
+    # testdata/generated/cog/variants/variants.go (emitted by the GoVariantsPlugins jenny).
+    variants = os.path.join(drv.REPO, "testdata", "generated", "cog", "variants", "variants.go")
+    if os.path.exists(variants):
+        cfg2 = os.path.join(tmp, "pipeline_slots.yaml")
+        open(cfg2, "w").write(GEN_PIPELINE_SLOTS % {"verif": drv.VERIF, "repo": drv.REPO, "out": out})
+        drv.sh([cog, "generate", "--config", cfg2], cwd=tmp)
+        os.makedirs(os.path.join(out, "cog", "variants"), exist_ok=True)
+        import shutil
+        shutil.copy(variants, os.path.join(out, "cog", "variants", "variants.go"))
     open(os.path.join(out, "go.mod"), "w").write("module verifgen\n\ngo 1.23\n")
     drv.sh(["go", "build", "./..."], cwd=out)   # a corpus entry whose output does not type-check is C02's subject
     return {"gen": out}
@@ -346,7 +379,7 @@ def _c13_prepare(tmp, tier):
     os.makedirs(hdir, exist_ok=True)
     lst = os.path.join(tmp, "c13_entries.txt")
     subprocess.run([os.path.join(drv.BUILD, "symgo"), "-dir", ctx["gen"], "-gen-equals", hdir, "-gen-list", lst, "-modpath", "verifgen",
-                    "-pkgs", "./equality,./constraints,./validation,./defaults,./widgets,./shapes"], check=True, env=drv.ENV)
+                    "-pkgs", "./equality,./constraints,./validation,./defaults,./widgets,./shapes" + (",./slots" if os.path.isdir(os.path.join(ctx["gen"], "slots")) else "")], check=True, env=drv.ENV)
     ctx["c13h"] = hdir
     ctx["c13"] = {}
     for l in open(lst):
